@@ -32,6 +32,7 @@ import (
 	"sort"
 	"strings"
 	"sync"
+	"sync/atomic"
 	"syscall"
 	"time"
 
@@ -819,6 +820,57 @@ func RunCase(f Format, c Case, dir string) (res *Result) {
 		})
 		if pn != "" {
 			r.vio(site, "panic", s.name, nil, "", "%s", pn)
+		}
+		// ---- the same reader from 8 goroutines at once (a reader serves every request of the server):
+		// each goroutine looks up a strided share of the added signatures, so neighbouring lookups hit
+		// buckets of different sizes
+		if !eofSurf && pn == "" && len(items) > 1 && !r.enough() {
+			const G = 8
+			per := len(items)
+			if per > 6000 {
+				per = 6000
+			}
+			type miss struct {
+				it  *item
+				err error
+			}
+			var cmu sync.Mutex
+			var misses []miss
+			nMiss := 0
+			var cwg sync.WaitGroup
+			var cpanic atomic.Value
+			for g := 0; g < G; g++ {
+				cwg.Add(1)
+				go func(g int) {
+					defer cwg.Done()
+					defer func() {
+						if rc := recover(); rc != nil {
+							cpanic.Store(fmt.Sprint(rc))
+						}
+					}()
+					for k := 0; k < per; k++ {
+						it := &items[(g*7919+k*G+g)%len(items)]
+						got, err := rd.Has(it.sig)
+						if err != nil || !got {
+							cmu.Lock()
+							nMiss++
+							if len(misses) < 3 {
+								misses = append(misses, miss{it, err})
+							}
+							cmu.Unlock()
+						}
+					}
+				}(g)
+			}
+			cwg.Wait()
+			res.Evals += int64(G * per)
+			res.Counters["concurrent_lookups_"+s.name] += int64(G * per)
+			if v := cpanic.Load(); v != nil {
+				r.vio("Reader.Has("+s.name+", 8 goroutines)", "panic", s.name, nil, "", "%v", v)
+			}
+			for _, m := range misses {
+				r.vio("Reader.Has("+s.name+", 8 goroutines)", "false-negative-under-concurrent-lookups", s.name, &m.it.sig, "added", "prefix %02x%02x population %d: a signature that was Put (and is found when looked up alone) is denied / fails (err=%v) when 8 goroutines use the reader at once; %d of %d concurrent lookups failed", m.it.sig[0], m.it.sig[1], distinctPop[m.it.p], m.err, nMiss, G*per)
+			}
 		}
 		protect(func() { rd.Close() })
 		closeFn()
